@@ -1,5 +1,6 @@
 pub mod engine;
 pub mod exec;
+pub mod fuzz;
 pub mod gen;
 pub mod model;
 pub mod types;
